@@ -7,9 +7,10 @@ BASE_NOTE = ("Trusted: Coq 8.16.1 kernel (+ vm_compute for finite witnesses/Exam
              "context); extraction uses ExtrOcamlBasic only (no Extract Constant / extra Extract Inductive); the "
              "OCaml driver glue, the Python harness (generators, canonicalisers) and the hand-written model's "
              "agreement with /repo, which is re-tested differentially on every run. ")
+REGISTERED = set(open(os.path.join(ROOT, "harness", "registered.txt")).read().split())
 CHECKS = {}
 for _f in sorted(os.listdir(os.path.join(ROOT, "harness", "manifest.d"))):
-    if _f.endswith(".json"):
+    if _f.endswith(".json") and _f[:-5] in REGISTERED:
         CHECKS[_f[:-5]] = json.load(open(os.path.join(ROOT, "harness", "manifest.d", _f)))
 def main():
     checks = []
